@@ -94,8 +94,7 @@ func (e *EventStreaming) CreateEventStream(name string, count uint64) *EventStre
 	}
 	local := make(chan *si.EventRecord, defaultChannelBufSize)
 	stop := make(chan struct{})
-	e.createEventStreamInternal(stream, local, consumer, stop, name)
-	history := e.buffer.GetRecentEvents(count)
+	history := e.createEventStreamInternal(stream, local, consumer, stop, name, count)
 
 	go func(consumer chan<- *si.EventRecord, local <-chan *si.EventRecord, stop <-chan struct{}) {
 		// Store the refs of historical events; it's possible that some events are added to the
@@ -137,10 +136,13 @@ func (e *EventStreaming) createEventStreamInternal(stream *EventStream,
 	local chan *si.EventRecord,
 	consumer chan *si.EventRecord,
 	stop chan struct{},
-	name string) {
+	name string,
+	count uint64) []*si.EventRecord {
 	// stuff that needs locking
 	e.Lock()
 	defer e.Unlock()
+	// The history must be read while no event can be published: events published between the registration and
+	// the read would otherwise be in "local" as well as in the history, possibly ahead of the requested history.
 
 	e.eventStreams[stream] = eventConsumerDetails{
 		local:     local,
@@ -149,6 +151,7 @@ func (e *EventStreaming) createEventStreamInternal(stream *EventStream,
 		name:      name,
 		createdAt: time.Now(),
 	}
+	return e.buffer.GetRecentEvents(count)
 }
 
 // RemoveEventStream stops the streaming for a given consumer. Must be called to avoid resource leaks.
